@@ -56,6 +56,7 @@ type Contract struct {
 	Strings  string
 	Owned    []string
 	NoSweep  bool
+	Uses     []string // axioms assumed at entry
 	Counts   []CountSpec
 	IsType   bool // functype contract
 }
@@ -94,7 +95,17 @@ type LemmaSpec struct {
 	PkgPath string
 }
 
+type AxiomSpec struct {
+	Name    string
+	Expr    ast.Expr
+	Text    string
+	PkgPath string
+	Pos     string
+}
+
 type ContractSet struct {
+	GhostNames map[string]bool
+	Axioms   map[string]*AxiomSpec
 	ByTarget map[string]*Contract // key: pkgpath + "::" + target
 	Types    map[string]*Contract // functype contracts, key pkgpath::TypeName
 	Preds    map[string]*Pred
@@ -108,11 +119,11 @@ var clauseKeywords = map[string]bool{
 	"requires": true, "ensures": true, "ensures-on-panic": true, "panics-when": true,
 	"nopanic": true, "modifies": true, "loop": true, "assert-at": true, "ghost": true,
 	"inline": true, "pure": true, "trusted": true, "property": true, "strings": true,
-	"owned": true, "nosweep": true, "counts": true,
+	"owned": true, "nosweep": true, "counts": true, "uses": true,
 }
 
 func loadContracts(pkgs []*packages.Package) *ContractSet {
-	cs := &ContractSet{ByTarget: map[string]*Contract{}, Types: map[string]*Contract{}, Preds: map[string]*Pred{}}
+	cs := &ContractSet{ByTarget: map[string]*Contract{}, Types: map[string]*Contract{}, Preds: map[string]*Pred{}, Axioms: map[string]*AxiomSpec{}, GhostNames: map[string]bool{}}
 	seen := map[string]bool{}
 	var visit func(p *packages.Package)
 	visit = func(p *packages.Package) {
@@ -223,6 +234,21 @@ func (cs *ContractSet) parseFile(p *packages.Package, f *ast.File, fname string)
 			fs.PkgPath = p.PkgPath
 			fs.Text = rest
 			cs.Frames = append(cs.Frames, fs)
+		case "axiom":
+			// axiom name : expr   (an assumed fact; listed in every evidence file that uses it)
+			ci := strings.Index(rest, ":")
+			if ci < 0 {
+				cs.errf(it.pos, "bad axiom %q", rest)
+				continue
+			}
+			name := strings.TrimSpace(rest[:ci])
+			txt := strings.TrimSpace(rest[ci+1:])
+			e, err := parseSpecExpr(txt)
+			if err != nil {
+				cs.errf(it.pos, "axiom %s: %v", name, err)
+				continue
+			}
+			cs.Axioms[name] = &AxiomSpec{Name: name, Expr: e, Text: txt, PkgPath: p.PkgPath, Pos: it.pos}
 		case "lemma":
 			lm := parseLemma(rest)
 			if lm == nil {
@@ -296,6 +322,8 @@ func (cs *ContractSet) parseClause(c *Contract, kw, rest, pos string) {
 		c.Pure = true
 	case "nosweep":
 		c.NoSweep = true
+	case "uses":
+		c.Uses = append(c.Uses, strings.Fields(strings.ReplaceAll(rest, ",", " "))...)
 	case "trusted":
 		c.Trusted = rest
 		if c.Trusted == "" {
@@ -314,6 +342,7 @@ func (cs *ContractSet) parseClause(c *Contract, kw, rest, pos string) {
 		parts := strings.SplitN(rest, ":", 2)
 		if len(parts) == 2 {
 			c.Ghosts[strings.TrimSpace(parts[0])] = strings.TrimSpace(parts[1])
+			cs.GhostNames[strings.TrimSpace(parts[0])] = true
 		}
 	case "counts":
 		f := strings.Fields(rest)
